@@ -10,6 +10,7 @@ import (
 	"verif/harness/internal/cancel"
 	"verif/harness/internal/contexts"
 	"verif/harness/internal/core"
+	"verif/harness/internal/decor"
 	"verif/harness/internal/graph"
 	"verif/harness/internal/layers"
 	"verif/harness/internal/loader"
@@ -29,7 +30,8 @@ var engines = map[string]engine{
 	"C11": outputs.Check,
 	"C12": cancel.Check,
 	"C14": contexts.Check,
-	"C15": loader.CheckC15, "C16": loader.CheckC16, "C17": loader.CheckC17, "C18": loader.CheckC18,
+	"C15": loader.CheckC15, "C16": loader.CheckC16, "C17": loader.CheckC17,
+	"C19": decor.Check, "C18": loader.CheckC18,
 	"C13": timed.Check,
 }
 
